@@ -31,6 +31,12 @@ def AnswersOwn (tbl : List (α × α)) (e : Entry α) (l : Line α) : Prop :=
 instance (tbl : List (α × α)) (e : Entry α) (l : Line α) : Decidable (AnswersOwn tbl e l) := by
   unfold AnswersOwn; exact inferInstance
 
+/-- no caller is woken without a reply - and no entry is on its way to that - unless the connection is being shut down
+or was lost: a wake-up without a reply makes `get_reply` raise a connection error, which is in order only then.
+(What an event shared between two entries of one thread would break: the reply to the older entry wakes the wait for
+the newer one.) -/
+def NoSpuriousRelease (s : St α) : Prop := s.closing = false → s.released = [] ∧ s.relHold = []
+
 /-- every caller whose event was set with a reply got a reply that answers its own request -/
 def ReplyMatches (tbl : List (α × α)) (s : St α) : Prop :=
   ∀ p ∈ s.delivered, AnswersOwn tbl p.1 p.2
@@ -143,10 +149,37 @@ inductive Verdict where
   | spuriousConnError -- connection error without any disconnect
   | late              -- waited longer than the time-out
   | raised            -- ended with an unexpected exception
+  | needlessTimeout   -- timed out although the reply to its own request was readable well before the time-out ran out
   deriving DecidableEq, Repr
 
+/-- a line the peer made readable on the live connection, and from when on (ms after the start of the scenario) the
+client could have read it -/
+structure Arrival (α : Type) where
+  line : Line α
+  readyMs : Nat
+  deriving Repr
+
+/-- "for any order and timing in which replies arrive every caller receives the reply that answers its own request":
+the caller of entry `e`, who began its request at `tPut` and gave up when its reply time-out `replyMs` had run out, was
+let down when a line that the peer sent in response to this very request, that answers it and that reaches the matching
+code (`event = false`) was readable at least `marginMs` before the time-out ran out - whatever the rx thread was doing
+instead of reading it. -/
+def NeedlessTimeout (tbl : List (α × α)) (e : Entry α) (tPut replyMs marginMs : Nat) (arr : List (Arrival α)) : Prop :=
+  ∃ a ∈ arr, a.line.re = some e.id ∧ AnswersOwn tbl e a.line ∧ a.line.event = false ∧ a.readyMs + marginMs ≤ tPut + replyMs
+
+instance (tbl : List (α × α)) (e : Entry α) (tPut replyMs marginMs : Nat) (arr : List (Arrival α)) :
+    Decidable (NeedlessTimeout tbl e tPut replyMs marginMs arr) := by
+  unfold NeedlessTimeout; exact inferInstance
+
+def needlessTimeoutB (tbl : List (α × α)) (e : Entry α) (tPut replyMs marginMs : Nat) (arr : List (Arrival α)) : Bool :=
+  decide (NeedlessTimeout tbl e tPut replyMs marginMs arr)
+
+theorem needlessTimeoutB_iff (tbl : List (α × α)) (e : Entry α) (tPut replyMs marginMs : Nat) (arr : List (Arrival α)) :
+    needlessTimeoutB tbl e tPut replyMs marginMs arr = true ↔ NeedlessTimeout tbl e tPut replyMs marginMs arr := by
+  simp [needlessTimeoutB]
+
 def judgeCaller (tbl : List (α × α)) (final : St α) (closedAt : List Nat) (everClosing : Bool) (waitMs : Nat)
-    (putClosing : Bool) (c : CallerObs) : Verdict :=
+    (putClosing : Bool) (c : CallerObs) (needless : Bool := false) : Verdict :=
   if c.tEnd > c.tPut + waitMs then .late else
   match c.out with
   | .reply q | .secopError q =>
@@ -154,7 +187,8 @@ def judgeCaller (tbl : List (α × α)) (final : St α) (closedAt : List Nat) (e
     | some p => if p.2.seq = q ∧ AnswersOwn tbl p.1 p.2 then .ok else .wrongReply
     | none => .wrongReply
   | .connError => if everClosing then .ok else .spuriousConnError
-  | .timeout => if putClosing || closedAt.any (fun k => c.putAt < k ∧ k ≤ c.endAt) then .notReleased else .ok
+  | .timeout => if putClosing || closedAt.any (fun k => c.putAt < k ∧ k ≤ c.endAt) then .notReleased
+                else if needless then .needlessTimeout else .ok
   | .other => .raised
   | .laterConn => .ok
 
@@ -320,12 +354,19 @@ def View.see (v : View) : Ev → View
 /-- the connection has ended and nothing is left to read -/
 def View.dead (v : View) : Bool := (v.shut || v.peerEnded) && (v.got == v.sent || v.sawClosed)
 
+/-- the line numbers `readline` handed out along a trace -/
+def linesOf : List Ev → List Nat
+  | [] => []
+  | .call .readline (.line n) :: es => n :: linesOf es
+  | _ :: es => linesOf es
+
 /-- one call, made in the situation `v`, behaves as the client needs it:
 * `shutdown()` and `disconnect()` return normally — always;
 * `readline()` on a connection that was not disconnected raises nothing but `ConnectionClosed`, and that only when
   the connection has ended (peer closed / reset, or shut down locally); it returns only the next unread line the peer
-  sent; on a dead connection it raises `ConnectionClosed` (it does not go on returning `None`: the rx thread would
-  never notice);
+  sent, in whatever segments and with whatever pauses its bytes arrived (`peerPart`); it returns `None` only when no
+  complete line is waiting; on a dead connection it raises `ConnectionClosed` (it does not go on returning `None`: the
+  rx thread would never notice);
 * `send()` after `shutdown()` does not return normally (the tx thread notices). -/
 def CallOk (v : View) : Op → Out → Prop
   | .shutdown, r => r = .ok
@@ -334,7 +375,7 @@ def CallOk (v : View) : Op → Out → Prop
     v.gone = true ∨
       (match r with
        | .line n => n = v.got ∧ v.got < v.sent ∧ v.sawClosed = false
-       | .nothing => v.dead = false
+       | .nothing => v.dead = false ∧ v.got = v.sent
        | .closed => v.shut = true ∨ v.peerEnded = true
        | _ => False)
   | .send, r => v.gone = true ∨ v.shut = false ∨ r ≠ .ok
@@ -370,6 +411,7 @@ theorem connFirstBad_iff (v : View) (tr : List Ev) (i : Nat) :
       · simp [h, ih]
       · simp [h]
     | peerSend => simp [ih]
+    | peerPart => simp [ih]
     | peerFin => simp [ih]
     | peerRst => simp [ih]
 
